@@ -231,16 +231,19 @@ Definition state_of (t : tdef) (dephashes : list str) : tstate :=
   mkT (td_label t) (td_cmd t) (td_ins t) (map out_def (td_outs t)) dephashes (td_fp t)
       (if td_multi t then None else host_platform).
 
-(* target_hasher.go: output hashes of the direct dependencies; a dependency declared through an
-   alias contributes the output hash of the target the alias resolves to *)
+(* target_hasher.go: what the direct dependencies contribute to the key: "<label>=<output hash>" each
+   (output hashes cover package-relative paths only, so the dependency's identity is part of its
+   contribution); a dependency declared through an alias contributes as the target the alias resolves to *)
+Definition dep_contrib (dt : tdef) (h : str) : str := print_label (td_label dt) ++ ch_eq :: h.
+
 Fixpoint dep_hashes (s : sources) (b : bstate) (ds : list nat) : option (list str) :=
   match ds with
   | [] => Some []
   | d :: ds' =>
       match resolve s d, dep_hashes s b ds' with
-      | Some (j, _), Some rest =>
+      | Some (j, dt), Some rest =>
           match rt_ohash (get_rt b j) with
-          | Some h => if null h then None else Some (h :: rest)
+          | Some h => if null h then None else Some (dep_contrib dt h :: rest)
           | None => None
           end
       | _, _ => None
